@@ -76,7 +76,9 @@ def check_graph(cfg, sampler, mol):
             th = [x for x in t.nodes if t.nodes[x].get('element') != 'H']
             g1, g2 = mol.subgraph(heavy), t.subgraph(th)
             nm = lambda a, b: a.get('element') == b.get('element') and a.get('charge', 0) == b.get('charge', 0)
-            em = lambda a, b: SC.order_ok(b.get('order', 1), a.get('order', 1), True)
+            # a template written in lower case carries 1.5 on its ring bonds; in the result the ring is either aromatic (1.5)
+            # or, where the documented definition does not call it aromatic (pyrrole, imidazole), a Kekule structure (1 / 2)
+            em = lambda a, b: SC.order_ok(b.get('order', 1), a.get('order', 1), True) or (b.get('order', 1) == 1.5 and a.get('order', 1) in (1, 2))
         else:
             g1, g2 = sub, t
             nm = lambda a, b: a.get('atomname') == b.get('atomname')
